@@ -1,33 +1,42 @@
 #!/bin/bash
-# usage: run.sh <check-dir-name> [--tier quick|thorough] ...
-# Rebuilds the check from /repo's current working tree (replace directive in go.mod
-# points at /repo) and runs it. Exit: 0 held, 1 violation, 2 harness error.
+# usage: run.sh <check-dir-name> [--tier quick|thorough] [--replay file] ...
+# Rebuilds the check from the repository's current working tree and runs it.
+# Exit: 0 held, 1 violation, 2 harness error.
+#   VERIF_REPO  tree under test (default /repo; scratch worktrees for mutation runs)
+#   VERIF_OUT   where bin/, .build/, logs/, evidence/, replays/ go (default /verif)
 set -u
 export GOFLAGS=-mod=mod GOPROXY=off GOSUMDB=off GOTOOLCHAIN=local
+REPO="${VERIF_REPO:-/repo}"
+OUT="${VERIF_OUT:-/verif}"
+export VERIF_REPO="$REPO" VERIF_OUT="$OUT"
 cd /verif || exit 2
 chk="$1"; shift
-bd=/verif/.build/$chk
-mkdir -p "$bd" /verif/bin /verif/logs
+bd="$OUT/.build/$chk"
+mkdir -p "$bd" "$OUT/bin" "$OUT/logs" "$OUT/evidence" "$OUT/replays"
+# module file binding the harness to the tree under test
+sed "s#=> /repo#=> $REPO#" /verif/go.mod > "$bd/go.mod"
+cp /verif/go.sum "$bd/go.sum" 2>/dev/null
 # Performance-only overlay, regenerated from the working tree on every run:
-# gocoin pre-sizes its block-index map for 500k mainnet blocks, which costs ~10 ms
-# of page clearing per chain open; histories open thousands of chains. Only the
-# numeric value of that one constant is replaced; if the line is not found the
-# file is used unchanged.
+# gocoin pre-sizes its block-index map for 500k mainnet blocks (~10 ms of page
+# clearing per chain open; histories open thousands of chains). Only the numeric
+# value of that one constant is replaced; if the line is absent the file is used
+# unchanged.
 ov="$bd/overlay.json"
-src=/repo/lib/chain/const.go
+src="$REPO/lib/chain/const.go"
 if grep -q 'BlockMapInitLen = 500e3' "$src" 2>/dev/null; then
   sed 's/BlockMapInitLen = 500e3/BlockMapInitLen = 512/' "$src" > "$bd/const.go"
   printf '{"Replace":{"%s":"%s"}}\n' "$src" "$bd/const.go" > "$ov"
 else
   printf '{"Replace":{}}\n' > "$ov"
 fi
+# optional per-check overlay generator: checks/<chk>/overlay.sh <builddir> <overlay.json> <repo>
 if [ -x "/verif/checks/$chk/overlay.sh" ]; then
-  "/verif/checks/$chk/overlay.sh" "$bd" "$ov" || { echo "HARNESS-ERROR: overlay generation failed" >&2; exit 2; }
+  "/verif/checks/$chk/overlay.sh" "$bd" "$ov" "$REPO" || { echo "HARNESS-ERROR: overlay generation failed" >&2; exit 2; }
 fi
 tags="${VERIF_TAGS:-verif}"
-if ! go build -tags "$tags" -overlay "$ov" -o "/verif/bin/$chk" "./checks/$chk" 2> "/verif/logs/$chk.build.log"; then
-  cat "/verif/logs/$chk.build.log" >&2
+if ! go build -modfile="$bd/go.mod" -tags "$tags" -overlay "$ov" -o "$OUT/bin/$chk" "./checks/$chk" 2> "$OUT/logs/$chk.build.log"; then
+  cat "$OUT/logs/$chk.build.log" >&2
   echo "HARNESS-ERROR: build of $chk failed" >&2
   exit 2
 fi
-exec "/verif/bin/$chk" "$@" 2> "/verif/logs/$chk.stderr.log"
+exec "$OUT/bin/$chk" "$@" 2> "$OUT/logs/$chk.stderr.log"
